@@ -222,6 +222,8 @@ def part_c(res, rng, tier, seed, d):
                 n = 4500        # a long pass (more than a third of an orbit)
             if rep == 1 and fmt == "gac_pod" and tier == "thorough":
                 n = 13000       # a whole orbit
+            if (rep == 0 and fmt == "lac_klm") or (rep == 1 and fmt in ("gac_klm", "lac_pod")):
+                n = rng.choice([1, 2, 3])     # the shortest passes: the across-track interpolation is the same cubic one
             # any position of the orbit (period about 102 min), any day of a month
             t0 = tg.ms_of(datetime.datetime(2001, 3, 4, 0, 0, 0)) + rng.randrange(0, 30 * 86400) * 1000
             start = tg.dt_of(t0)
